@@ -642,7 +642,14 @@ def c18_positions(plot, st, full, model_times, margin, valid_channels):
             if x != s:
                 out.append(F(["C18"], "block-left-edge!=start", op=i, kind=kind, x=x, start=s))
             qs = [q for q, _ in ops_l[i]["l"][1] if q in rows]
-            if len(qs) == 1 and kind not in ("Barrier", "CoordinateShiftOperation"):   # barriers are anchored at their lower edge
+            if kind in ("Barrier", "CoordinateShiftOperation"):
+                # anchored at the lower edge: the block must reach the row of every one of its qubits
+                for q in qs:
+                    ry = -1 * rows.index(q) * sp
+                    if not (y - 1e-9 <= ry <= y + ht + 1e-9):
+                        out.append(F(["C18"], "barrier-does-not-reach-row", op=i, qubit=q, row_y=ry, span=[y, y + ht]))
+                        break
+            elif len(qs) == 1:
                 want_rows = [-1 * rows.index(q) * sp for q in qs]
                 if not any(abs(y - wr) < 1e-9 for wr in want_rows):
                     out.append(F(["C18"], "block-row", op=i, kind=kind, y=y, want=want_rows))
